@@ -194,6 +194,8 @@ func main() {
 	r.Require("rr_types_handled", 75)
 	r.Require("size_4065-4096", min(150, 3000))
 	r.Require("size_3801-4064", min(150, 3000))
+	r.Require("handled_uncompressed_len_exactly_4096", min(10, 200))
+	r.Require("declined_uncompressed_len_exactly_4097", min(10, 200))
 	r.Require("conc_packs", min(20000, 200000))
 	r.Require("conc_consumer_checks_equal", min(8000, 80000))
 	r.Require("conc_shared_message_packs", min(1000, 10000))
